@@ -49,7 +49,11 @@ fn lint_by_ref_arg(
             // we can only pass an array by using the array name followed by parenthesis e.g. `Menu choice$()`
             match &arg_pos.element {
                 Expression::ArrayElement(name, args, expression_type) => {
-                    if args.is_empty() {
+                    // the array is passed as a whole, its elements cannot be converted:
+                    // an array of fixed length strings is not an array of strings
+                    let is_fixed_length_string =
+                        matches!(expression_type, ExpressionType::FixedLengthString(_));
+                    if args.is_empty() && !is_fixed_length_string {
                         let dummy_expr =
                             Expression::Variable(name.clone(), expression_type.clone()).at(arg_pos);
                         lint_by_ref_arg(&dummy_expr, boxed_element_type.as_ref())
